@@ -72,6 +72,9 @@ def tuple1(a):
     return Val.VTuple(z3.IntVal(1), z3.Store(z3.K(INT, Val.VAbsent), 0, a))
 
 
+NAMES_ACTIVE = set()
+
+
 def install(E, bb, bv, spec_wf_name='spec_wf'):
     C = E.classes
     Struct, Union, Attribute = bb.Struct, bb.Union, bb.Attribute
@@ -100,6 +103,8 @@ def install(E, bb, bv, spec_wf_name='spec_wf'):
             return Val.VList(NF(c), FieldsArr(c))
         if name == '_all_field_names_':
             E.axiom(NF(c) >= 0)
+            NAMES_ACTIVE.add(c.get_id())
+            vals.KEEP.append(c)
             return Val.VSet(NF(c), NamesOrder(c), NamesMember(c))
         if name == '_has_required_fields':
             E.axiom(z3.Implies(HasReq(c), z3.And(ReqWit(c) >= 0, ReqWit(c) < NF(c), required(c, ReqWit(c)))))
@@ -266,13 +271,17 @@ def install(E, bb, bv, spec_wf_name='spec_wf'):
             z3.Implies(required(c, i), HasReq(c)),
             # the descriptor is what the class (and every generated subclass) shows under the field's name
             ClassAttr(c, nm) == Val.VObj(a),
-            # every field is met when iterating _all_field_names_
-            PermInv(c, i) >= 0, PermInv(c, i) < NF(c), Perm(c, PermInv(c, i)) == i,
-            z3.Select(NamesOrder(c), PermInv(c, i)) == Val.VStr(nm),
-            z3.Select(NamesMember(c), vals.KeyId(Val.VStr(nm))),
         ]
+        names = c.get_id() in NAMES_ACTIVE
+        if names:
+            facts += [
+                # every field is met when iterating _all_field_names_
+                PermInv(c, i) >= 0, PermInv(c, i) < NF(c), Perm(c, PermInv(c, i)) == i,
+                z3.Select(NamesOrder(c), PermInv(c, i)) == Val.VStr(nm),
+                z3.Select(NamesMember(c), vals.KeyId(Val.VStr(nm))),
+            ]
         E.axiom(z3.Implies(inr, z3.And(*facts)))
-        if E.path is not None and nesting(i) == 0:
+        if names and E.path is not None and nesting(i) == 0:
             E.path.index(PermInv(c, i), NF(c))
 
     from .symclass import ClassAttr
@@ -353,3 +362,28 @@ def install(E, bb, bv, spec_wf_name='spec_wf'):
             return z3.simplify(t.arg(0)), elem
         return None
     E.elem_rewrite = elem_rewrite
+
+    def getitem_symbolic(obj, idx, node):
+        """fields[i] on the field list of the model: the structured field tuple"""
+        if not isinstance(obj, I.T):
+            return None
+        t = z3.simplify(obj.t)
+        r = elem_rewrite(t)
+        if r is None or t.decl().name() != 'VList':
+            return None
+        n, elem = r
+        it = E.lift(idx)
+        if not E.must(vals.is_integral(it)):
+            return None
+        i = z3.simplify(vals.int_of(it))
+        if E.must(i >= 0):
+            j = i
+        elif E.must(i < 0):
+            j = z3.simplify(i + n)
+        else:
+            return None
+        E.fail_if(z3.Or(j < 0, j >= n), IndexError, 'index range')
+        if E.path is not None:
+            E.path.index(j, n)
+        return elem(j)
+    E.getitem_symbolic = getitem_symbolic
